@@ -22,7 +22,7 @@ def demo(wt, d):
     shutil.copy(os.path.join(d, "demo.xr"), slot)
     toml = os.path.join(d, "demo.toml")
     if os.path.exists(toml):
-        shutil.copy(toml, os.path.join(wt, "test_scripts", "001_variables.toml"))
+        shutil.copy(toml, os.path.join(wt, "test_scripts", "001.toml"))
     rc, out = sh("cargo test --offline --test run_scripts test_script_001 2>&1 | tail -n 25", wt)
     sh("git checkout -- test_scripts && git clean -fdq test_scripts", wt)
     ok = "test result: ok. 1 passed" in out
